@@ -12,8 +12,9 @@ import ast
 
 import emit
 import mtypes
-from symexec import (Sc, Bo, Obj, SList, Unsupported, Frame, is_num, to_sc, to_bo,
-                     _Return)
+from symexec import (Sc, Bo, Si, Obj, SList, Undefined, Unsupported, Frame, is_num, to_sc,
+                     to_bo, _Return, _Break, _Continue, _NeedFork, PyRaise, Leaf, Let,
+                     Branch)
 
 
 class SymIdx(object):
@@ -34,13 +35,89 @@ def list_term(le):
         return '(List.map (fun %s => %s) %s)' % (le[1], le[2], list_term(le[3]))
     if k == 'lpairs':
         return '(cyclicPairs %s)' % list_term(le[1])
+    # ---- v2 list expressions
+    if k == 'ldrop':
+        return '(List.drop %d %s)' % (le[1], list_term(le[2]))
+    if k == 'ltake':
+        return '(List.take %d %s)' % (le[1], list_term(le[2]))
+    if k == 'ldroplast':
+        return '(List.dropLast %s)' % list_term(le[1])
+    if k == 'lsnoc':
+        return '(%s ++ [%s])' % (list_term(le[1]), le[2])
+    if k == 'lcons':
+        return '(%s :: %s)' % (le[1], list_term(le[2]))
+    if k == 'lappend':
+        return '(%s ++ %s)' % (list_term(le[1]), list_term(le[2]))
+    if k == 'lzip':
+        return '(List.zip %s %s)' % (list_term(le[1]), list_term(le[2]))
+    if k == 'lfiltermap':
+        return '(List.filterMap (fun %s => %s) %s)' % (le[1], le[2], list_term(le[3]))
+    if k == 'llit':
+        return '([%s] : %s)' % (', '.join(le[1]), le[2])
+    if k == 'lzipidx':
+        return '(List.zipIdx %s)' % list_term(le[1])
+    if k in ('ldropi', 'ltakei'):
+        # Python slice bound k on a list of length n: negative counts from the end, values
+        # outside the range are clamped (List.drop / List.take clamp at n, Int.toNat at 0)
+        lt = list_term(le[2])
+        return '(List.%s (Int.toNat (if %s < (0 : Int) then ((%s).length : Int) + %s else %s)) %s)' % (
+            'drop' if k == 'ldropi' else 'take', le[1], lt, le[1], le[1], lt)
     raise Unsupported('list expr %r' % (le,))
+
+
+def _V2():
+    import symexec
+    return symexec.V2_ACTIVE
+
+
+class _RestartLoop(Exception):
+    """The element kind of a list accumulator was refined (T -> Option T): re-explore."""
+    pass
+
+
+def unify_kind(a, b):
+    """Least kind covering a and b where `('opt', None)` stands for a bare None."""
+    if a is None:
+        return b
+    if b is None:
+        return a
+    a, b = mtypes.parse_type(a), mtypes.parse_type(b)
+    if a == b:
+        return a
+    if set((a, b)) == set(('I', 'S')) if isinstance(a, str) and isinstance(b, str) else False:
+        return 'S'          # Python int and float items: the integers embed
+    a_opt = isinstance(a, tuple) and a[0] == 'opt'
+    b_opt = isinstance(b, tuple) and b[0] == 'opt'
+    if a_opt and b_opt:
+        if a[1] is None:
+            return b
+        if b[1] is None:
+            return a
+    elif a_opt:
+        if a[1] is None or mtypes.parse_type(a[1]) == b:
+            return ('opt', b)
+    elif b_opt:
+        if b[1] is None or mtypes.parse_type(b[1]) == a:
+            return ('opt', a)
+    raise Unsupported('items of different kinds: %r and %r' % (a, b))
 
 
 def elem_kind(v, index):
     """Model type of a loop-carried / mapped value."""
+    if v is None and _V2()[0]:
+        return ('opt', None)
+    if isinstance(v, Si):
+        return 'I'
+    if isinstance(v, SymIdx):
+        raise _NeedIndexValue()
+    if isinstance(v, tuple) and v and not isinstance(v[0], str):
+        return ('tup',) + tuple(elem_kind(x, index) for x in v)
+    if isinstance(v, SList):
+        return ('list', v.elem)
     if isinstance(v, Bo) or isinstance(v, bool):
         return 'B'
+    if isinstance(v, int) and _V2()[0]:
+        return 'I'
     if isinstance(v, Sc) or is_num(v):
         return 'S'
     if isinstance(v, Obj):
@@ -91,6 +168,8 @@ def _pyclass_for(elem, pycls):
 def exec_sym_for(frame, st, it):
     I = frame.I
     index = I.index
+    if I.v2:
+        return exec_sym_for_v2(frame, st, it)
     if st.orelse:
         raise Unsupported('for/else over symbolic list')
     enum = isinstance(it, tuple)
@@ -207,6 +286,8 @@ def sym_index(frame, L, i, e):
     """L[i] for a symbolic list."""
     I = frame.I
     index = I.index
+    if I.v2:
+        return sym_index_v2(frame, L, i, e)
     if isinstance(i, SymIdx):
         info = I.sym_lists.get(id(i.key))
         if info is None:
@@ -245,6 +326,19 @@ def _default_term(elem):
         return '(⟨0, 0⟩ : V2 α)'
     if t == 'V3':
         return '(⟨0, 0, 0⟩ : V3 α)'
+    if t == 'B':
+        return 'false'
+    if t == 'I':
+        return '(0 : Int)'
+    if isinstance(t, str) and t in mtypes.STRUCTS and t not in mtypes.SLOT_COMPLETE:
+        return '(⟨%s⟩ : %s)' % (', '.join(_default_term(ft) for (_, ft, _, _) in
+                                            mtypes.STRUCTS[t]), mtypes.lean_type(t))
+    if isinstance(t, tuple) and t[0] == 'tup':
+        return '(%s)' % ', '.join(_default_term(x) for x in t[1:])
+    if isinstance(t, tuple) and t[0] in ('list', 'ptlist'):
+        return '([] : %s)' % mtypes.lean_type(t)
+    if isinstance(t, tuple) and t[0] == 'opt':
+        return '(none : %s)' % mtypes.lean_type(t)
     raise Unsupported('no default element for %r' % (t,))
 
 
@@ -252,6 +346,8 @@ def sym_comprehension(frame, e, it):
     """[f(x) for x in L] / tuple(f(L[i-1], x) for i, x in enumerate(L))."""
     I = frame.I
     index = I.index
+    if I.v2:
+        return sym_comprehension_v2(frame, e, it)
     g = e.generators[0]
     if g.ifs:
         raise Unsupported('filtered comprehension over symbolic list')
@@ -320,3 +416,1179 @@ def sym_sum(frame, L, start):
         emit.sexpr(to_sc(start)), list_term(L.le))
     I.trace.append(('let', 'sum_' + uid, 'raw', text))
     return Sc(('var', 'sum_' + uid))
+
+
+# =====================================================================================
+#  v2 machinery (kernels of the second generation; see Interp.v2)
+#
+#  * every list operation that can raise in Python is modelled: `L[0]`, `L[-1]`, `L[k]`,
+#    `L.pop()`, `min(L)` fork on the emptiness / length of `L` and raise IndexError /
+#    ValueError on that branch (the kernel registers `err_as_none` to return `none`);
+#  * slices `L[a:]`, `L[:b]`, `L[a:b]`, `L[:-1]`, `L[::-1]`, `L[:]` of symbolic lists;
+#  * `for` over a symbolic list (also `enumerate`, `zip`, tuple targets) whose body may
+#    update local names, items of fixed-size local lists (`min_pt[0] = …`), attributes of
+#    local objects (`self._is_convex = False`), append to local lists, count with integers,
+#    and leave through `return`, `break`, `continue` or an exception.  The loop becomes one
+#    `List.foldl` whose state carries the accumulators and, when needed, an
+#    `Option <returned value>`, a `broke` flag and a `raised` flag which freeze the state;
+#  * `L[i - 1]`, `L[i - 2]` inside `for i, x in enumerate(L)` (cyclic predecessors);
+#  * comprehensions with filters -> `List.filterMap`;  `min/max/any/all/sum/len/zip`.
+#  Anything else raises Unsupported.
+# =====================================================================================
+MUTATORS = ('append', 'extend', 'insert', 'pop', 'reverse', 'remove', 'sort', 'clear')
+
+
+class _NeedDepth(Exception):
+    def __init__(self, d):
+        self.d = d
+
+
+class _NeedIndexValue(Unsupported):
+    """The loop index of `enumerate` is used as a number (compared, stored, sliced with ...):
+    the loop is re-run over `List.zipIdx` with the index as a symbolic integer."""
+
+    def __init__(self):
+        Unsupported.__init__(self, 'a symbolic loop index is used as a number outside a '
+                                   'supported loop')
+
+
+class _NeedErr(Exception):
+    """The loop body can raise: the fold state needs the `raised` component."""
+    pass
+
+
+def _is_simple_list(le):
+    return le[0] == 'lvar' or (le[0] in ('ldrop', 'ltake') and le[2][0] == 'lvar') or \
+        (le[0] in ('ldroplast', 'lrev') and le[1][0] == 'lvar')
+
+
+def bound_list(I, L, base='lst'):
+    """An SList with the same value whose term is a let-bound name (so that the term is
+    not duplicated textually).  The binding is appended to the current trace, hence it
+    is in scope for everything evaluated from here on in the current block."""
+    if _is_simple_list(L.le):
+        return L
+    nm = I.fresh(base)
+    I.trace.append(('let', nm, 'raw', list_term(L.le)))
+    I.len_lower[nm] = len_lb(I, L.le)
+    return SList(('lvar', nm), L.elem, L.pycls)
+
+
+def elem_input(index, term, L, I=None, base='item'):
+    if L.elem is None:
+        raise Unsupported('element of a list whose element kind is not known yet')
+    if I is not None:
+        # name the selected element once (its term would otherwise be repeated per slot)
+        nm = I.fresh(base)
+        I.trace.append(('let', nm, 'raw', term))
+        term = nm
+    return mtypes.make_input(index, term, L.elem, L.pycls)
+
+
+def _raise_if(I, cond, exc):
+    if I.decide(cond):
+        raise PyRaise(exc)
+
+
+def len_lb(I, le):
+    """A lower bound on the length of the list denoted by `le` on the current path."""
+    k = le[0]
+    if k == 'lvar':
+        return I.len_lower.get(le[1], 0)
+    if k in ('lrev', 'lpairs'):
+        return len_lb(I, le[1])
+    if k == 'lmap':
+        return len_lb(I, le[3])
+    if k == 'ldrop':
+        return max(0, len_lb(I, le[2]) - le[1])
+    if k == 'ltake':
+        return min(le[1], len_lb(I, le[2]))
+    if k == 'ldroplast':
+        return max(0, len_lb(I, le[1]) - 1)
+    if k == 'lsnoc':
+        return len_lb(I, le[1]) + 1
+    if k == 'lcons':
+        return len_lb(I, le[2]) + 1
+    if k == 'lappend':
+        return len_lb(I, le[1]) + len_lb(I, le[2])
+    if k == 'lzip':
+        return min(len_lb(I, le[1]), len_lb(I, le[2]))
+    if k == 'llit':
+        return len(le[1])
+    return 0
+
+
+def _raise_if_short(I, L, need, exc):
+    """Python raises `exc` when len(L) < need.  The branch is dropped when the length is
+    known to suffice; otherwise it is decided (forked) and the fact is remembered."""
+    if len_lb(I, L.le) >= need:
+        return
+    lt = list_term(L.le)
+    cond = ('rawprop', '(%s = [])' % lt) if need == 1 else \
+        ('rawprop', '(%s.length ≤ %d)' % (lt, need - 1))
+    if I.decide(cond):
+        raise PyRaise(exc)
+    if L.le[0] == 'lvar':
+        I.len_lower[L.le[1]] = max(I.len_lower.get(L.le[1], 0), need)
+
+
+def sym_index_v2(frame, L, i, e):
+    I = frame.I
+    index = I.index
+    if isinstance(i, SymIdx):
+        info = I.sym_lists.get(id(i.key))
+        if info is None:
+            raise Unsupported('symbolic index outside its loop')
+        L0, key, pp_name, state, Lorig = info
+        if L is Lorig:
+            L = L0
+        if L is not L0 and list_term(L0.le) != list_term(L.le):
+            # `for i, x in enumerate(X[:-1]): ... X[i + 1]`: the successor in X (always
+            # in range)
+            if L0.le[0] == 'ldroplast' and list_term(L0.le[1]) == list_term(L.le) and \
+                    i.off in (0, 1):
+                if state['depth'] != 'succ':
+                    raise _NeedDepth('succ')
+                return elem_input(index, pp_name + ('.1' if i.off == 0 else '.2'), L)
+            raise Unsupported('symbolic index into a different list')
+        if i.off not in (0, -1, -2):
+            raise Unsupported('symbolic index offset %d' % i.off)
+        if state['depth'] == 'succ':
+            if i.off == 0:
+                return elem_input(index, pp_name + '.1', L)
+            raise Unsupported('predecessor and successor in one loop')
+        need = -i.off
+        if state['depth'] < need:
+            raise _NeedDepth(need)
+        if i.off == -2 and len(I.decisions) > 0:
+            # the IndexError of L[i - 2] on a one-element list is modelled before the
+            # loop; that is only exact when the access happens on every path
+            raise Unsupported('L[i - 2] evaluated conditionally')
+        d = state['depth']
+        term = {(0, 0): pp_name,
+                (1, 0): pp_name + '.2', (1, -1): pp_name + '.1',
+                (2, 0): pp_name + '.2.2', (2, -1): pp_name + '.2.1',
+                (2, -2): pp_name + '.1.1'}[(d, i.off)]
+        return elem_input(index, term, L)
+    if isinstance(i, Si):
+        # L[k] with a symbolic integer: Python raises IndexError unless -n <= k < n
+        L = bound_list(I, L)
+        lt = list_term(L.le)
+        k = I.name_value(i, 'k')
+        kt = emit.sexpr(k.e)
+        _raise_if(I, ('rawprop', '(%s < -((%s).length : Int) ∨ ((%s).length : Int) ≤ %s)' % (
+            kt, lt, lt, kt)), 'IndexError')
+        dflt = _default_term(L.elem)
+        return elem_input(index, '(%s.getD (Int.toNat (if %s < (0 : Int) then ((%s).length : Int) '
+                                 '+ %s else %s)) %s)' % (lt, kt, lt, kt, kt, dflt), L, I)
+    if isinstance(i, bool):
+        i = int(i)
+    if isinstance(i, int):
+        L = bound_list(I, L)
+        lt = list_term(L.le)
+        dflt = _default_term(L.elem)
+        if i == 0:
+            _raise_if_short(I, L, 1, 'IndexError')
+            return elem_input(index, '(%s.headD %s)' % (lt, dflt), L, I)
+        if i == -1:
+            _raise_if_short(I, L, 1, 'IndexError')
+            return elem_input(index, '(%s.getLastD %s)' % (lt, dflt), L, I)
+        if i > 0:
+            _raise_if_short(I, L, i + 1, 'IndexError')
+            return elem_input(index, '(%s.getD %d %s)' % (lt, i, dflt), L, I)
+        _raise_if_short(I, L, -i, 'IndexError')
+        return elem_input(index, '((List.reverse %s).getD %d %s)' % (lt, -i - 1, dflt), L, I)
+    if isinstance(i, slice):
+        lo, hi, step = i.start, i.stop, i.step
+        if step not in (None, 1, -1):
+            raise Unsupported('slice step %r' % (step,))
+        from symexec import SOpt as _SOpt
+        if isinstance(lo, _SOpt):
+            lo = I.payload(lo)
+        if isinstance(hi, _SOpt):
+            hi = I.payload(hi)
+        if isinstance(lo, Si) or isinstance(hi, Si):
+            if step not in (None, 1):
+                raise Unsupported('slice step with symbolic bounds')
+            L = bound_list(I, L)
+            le = L.le
+            for b in (lo, hi):
+                if b is not None and not isinstance(b, Si) and not (
+                        isinstance(b, int) and not isinstance(b, bool)):
+                    raise Unsupported('slice bound %r' % (b,))
+
+            def bterm(b):
+                if isinstance(b, Si):
+                    return emit.sexpr(I.name_value(b, 'k').e)
+                return '(%d : Int)' % b if b >= 0 else '(-%d : Int)' % (-b)
+            if hi is not None:
+                le = ('ltakei', bterm(hi), le)
+            if lo is not None:
+                if hi is None:
+                    le = ('ldropi', bterm(lo), le)
+                elif isinstance(lo, int) and lo >= 0:
+                    # a non-negative literal lower bound does not depend on the length
+                    le = ('ldrop', lo, le)
+                else:
+                    raise Unsupported('slice with two bounds and a symbolic lower bound')
+            return SList(le, L.elem, L.pycls)
+        for b in (lo, hi):
+            if b is not None and not (isinstance(b, int) and not isinstance(b, bool)):
+                raise Unsupported('symbolic slice bound')
+        if step == -1:
+            if lo is None and hi is None:
+                return SList(('lrev', L.le), L.elem, L.pycls)
+            raise Unsupported('reversed slice with bounds')
+        le = L.le
+        if hi is not None:
+            if hi >= 0:
+                le = ('ltake', hi, le)
+            elif hi == -1:
+                le = ('ldroplast', le)
+            else:
+                raise Unsupported('slice upper bound %d' % hi)
+        if lo is not None and lo != 0:
+            if lo > 0:
+                le = ('ldrop', lo, le)
+            else:
+                raise Unsupported('slice lower bound %d' % lo)
+        return SList(le, L.elem, L.pycls)
+    raise Unsupported('index %r into symbolic list' % (i,))
+
+
+def _item_term(I, L, v):
+    """Lean term of a value stored into the symbolic list L (fixes the element kind of a
+    list that was created empty; a list that receives both objects and None has optional
+    elements)."""
+    index = I.index
+    kd = elem_kind(v, index)
+    newk = unify_kind(L.elem, kd)
+    holder = getattr(L, 'holder', None)
+    if L.elem is None or mtypes.parse_type(newk) != mtypes.parse_type(L.elem):
+        was_plain = L.elem is not None and not (
+            isinstance(mtypes.parse_type(L.elem), tuple) and
+            mtypes.parse_type(L.elem)[0] == 'opt')
+        L.elem = newk
+        if v is not None or L.pycls is None:
+            L.pycls = _class_of_v2(v) if v is not None else L.pycls
+        if holder is not None:
+            holder['elem'], holder['pycls'] = L.elem, L.pycls
+        if was_plain:
+            # items already emitted as plain values must become `some _`
+            if holder is not None:
+                raise _RestartLoop()
+            raise Unsupported('list of %r receives None' % (kd,))
+    elif L.pycls is None and v is not None:
+        L.pycls = _class_of_v2(v)
+        if holder is not None:
+            holder['pycls'] = L.pycls
+    if isinstance(v, (Sc, Bo, Si)):
+        v = I.name_value(v, 'item')
+    if v is None:
+        return 'none'
+    return emit.value_term(v, L.elem, index)
+
+
+def _class_of_v2(v):
+    if isinstance(v, Obj):
+        return v.cls.name
+    if isinstance(v, tuple):
+        return tuple(_class_of_v2(x) for x in v)
+    return None
+
+
+def slist_method(frame, r, n, args, kwargs):
+    I = frame.I
+    index = I.index
+    if kwargs:
+        raise Unsupported('keyword arguments for list.%s' % n)
+    if n in MUTATORS and I.spec_starts:
+        raise _NeedFork()
+    if n == 'append' and len(args) == 1:
+        r.le = ('lsnoc', r.le, _item_term(I, r, args[0]))
+        return None
+    if n == 'extend' and len(args) == 1:
+        a = args[0]
+        if isinstance(a, SList):
+            if r.elem is None:
+                r.elem, r.pycls = a.elem, a.pycls
+                holder = getattr(r, 'holder', None)
+                if holder is not None:
+                    holder['elem'], holder['pycls'] = r.elem, r.pycls
+            if mtypes.parse_type(a.elem) != mtypes.parse_type(r.elem):
+                raise Unsupported('extend with a list of another kind')
+            r.le = ('lappend', r.le, a.le)
+            return None
+        for x in I.iterate(a):
+            r.le = ('lsnoc', r.le, _item_term(I, r, x))
+        return None
+    if n == 'insert' and len(args) == 2 and args[0] == 0 and isinstance(args[0], int):
+        r.le = ('lcons', _item_term(I, r, args[1]), r.le)
+        return None
+    if n == 'pop' and len(args) <= 1:
+        which = args[0] if args else -1
+        if which not in (0, -1) or isinstance(which, bool) or not isinstance(which, int):
+            raise Unsupported('list.pop(%r) on a symbolic list' % (which,))
+        b = bound_list(I, r)
+        r.le = b.le
+        lt = list_term(r.le)
+        _raise_if_short(I, r, 1, 'IndexError')
+        dflt = _default_term(r.elem)
+        if which == 0:
+            v = elem_input(index, '(%s.headD %s)' % (lt, dflt), r, I)
+            r.le = ('ldrop', 1, r.le)
+        else:
+            v = elem_input(index, '(%s.getLastD %s)' % (lt, dflt), r, I)
+            r.le = ('ldroplast', r.le)
+        return v
+    if n == 'reverse' and not args:
+        r.le = ('lrev', r.le)
+        return None
+    if n == 'copy' and not args:
+        return SList(r.le, r.elem, r.pycls)
+    raise Unsupported('method %s of a symbolic list' % n)
+
+
+def sym_minmax(frame, name, L):
+    I = frame.I
+    if mtypes.parse_type(L.elem) != 'S':
+        raise Unsupported('%s over a symbolic list of non-scalars' % name)
+    L = bound_list(I, L)
+    lt = list_term(L.le)
+    _raise_if_short(I, L, 1, 'ValueError')
+    nm = I.fresh(name)
+    I.trace.append(('let', nm, 'raw', '(List.foldl %s (%s.headD (0 : α)) (List.drop 1 %s))' % (
+        name, lt, lt)))
+    return Sc(('var', nm))
+
+
+# ------------------------------------------------------------------ loop accumulators
+class _BodyScan(ast.NodeVisitor):
+    """Locations a loop body may update, in source order, and its control statements."""
+
+    def __init__(self):
+        self.locs = []
+        self.has_return = False
+        self.has_break = False
+        self.mutated = set()
+        self.loop_depth = 0
+
+    def add(self, loc):
+        if loc not in self.locs:
+            self.locs.append(loc)
+
+    def visit_Name(self, node):
+        if isinstance(node.ctx, (ast.Store, ast.Del)):
+            self.add(('name', node.id))
+
+    def visit_Subscript(self, node):
+        if isinstance(node.ctx, (ast.Store, ast.Del)):
+            if isinstance(node.value, ast.Name):
+                self.add(('name', node.value.id))
+            else:
+                raise Unsupported('item store on a non-name inside a loop over a symbolic '
+                                  'list')
+        self.generic_visit(node)
+
+    def visit_Attribute(self, node):
+        if isinstance(node.ctx, (ast.Store, ast.Del)):
+            if isinstance(node.value, ast.Name):
+                self.add(('attr', node.value.id, node.attr))
+            else:
+                raise Unsupported('attribute store on a non-name inside a loop over a '
+                                  'symbolic list')
+        self.generic_visit(node)
+
+    def visit_Call(self, node):
+        f = node.func
+        if isinstance(f, ast.Attribute) and isinstance(f.value, ast.Name) and \
+                f.attr in MUTATORS:
+            self.add(('name', f.value.id))
+            self.mutated.add(f.value.id)
+        self.generic_visit(node)
+
+    def _comp(self, node):
+        # comprehension variables are local to the comprehension
+        for g in node.generators:
+            self.visit(g.iter)
+            for c in g.ifs:
+                self.visit(c)
+        if hasattr(node, 'elt'):
+            self.visit(node.elt)
+        else:
+            self.visit(node.key)
+            self.visit(node.value)
+
+    visit_ListComp = visit_GeneratorExp = visit_SetComp = visit_DictComp = _comp
+
+    def visit_Lambda(self, node):
+        self.visit(node.body)
+
+    def visit_FunctionDef(self, node):
+        raise Unsupported('nested function definition inside a loop over a symbolic list')
+
+    def visit_Return(self, node):
+        self.has_return = True
+        self.generic_visit(node)
+
+    def visit_Break(self, node):
+        if self.loop_depth == 0:
+            self.has_break = True
+
+    def _loop(self, node):
+        if isinstance(node, ast.For):
+            self.visit(node.target)
+            self.visit(node.iter)
+        else:
+            self.visit(node.test)
+        self.loop_depth += 1
+        for s in node.body:
+            self.visit(s)
+        self.loop_depth -= 1
+        for s in node.orelse:
+            self.visit(s)
+
+    visit_For = visit_While = _loop
+
+
+def _int_only_updates(name, body):
+    """True when every store to `name` in the loop body keeps it an integer."""
+    def int_const(e):
+        return isinstance(e, ast.Constant) and isinstance(e.value, int) and \
+            not isinstance(e.value, bool)
+    ok = True
+    for st in body:
+        for node in ast.walk(st):
+            if isinstance(node, ast.AugAssign) and isinstance(node.target, ast.Name) and \
+                    node.target.id == name:
+                if not (isinstance(node.op, (ast.Add, ast.Sub, ast.Mult)) and
+                        int_const(node.value)):
+                    ok = False
+            elif isinstance(node, ast.Assign):
+                for t in node.targets:
+                    for nn in ast.walk(t):
+                        if isinstance(nn, ast.Name) and nn.id == name:
+                            v = node.value
+                            if not (isinstance(t, ast.Name) and (
+                                    int_const(v) or (
+                                        isinstance(v, ast.BinOp) and
+                                        isinstance(v.op, (ast.Add, ast.Sub)) and
+                                        isinstance(v.left, ast.Name) and
+                                        v.left.id == name and int_const(v.right)))):
+                                ok = False
+            elif isinstance(node, (ast.For, ast.comprehension)):
+                for nn in ast.walk(node.target):
+                    if isinstance(nn, ast.Name) and nn.id == name:
+                        ok = False
+    return ok
+
+
+class _Tpl(object):
+    """Shape of one accumulator: how it is spread over the components of the fold state."""
+
+    def __init__(self, kind, sub=None, cls=None, holder=None, seqtype=None):
+        self.kind = kind          # model type of a leaf | 'seq' | 'slist'
+        self.sub = sub            # templates of the items of a fixed-size sequence
+        self.cls = cls
+        self.holder = holder
+        self.seqtype = seqtype
+
+
+def _template(I, v, name, body, mutated):
+    index = I.index
+    if isinstance(v, Obj):
+        return _Tpl(elem_kind(v, index), cls=v.cls.name)
+    if isinstance(v, (Bo, bool)):
+        return _Tpl('B')
+    if isinstance(v, Si):
+        return _Tpl('I')
+    if isinstance(v, Sc) or isinstance(v, float):
+        return _Tpl('S')
+    if isinstance(v, int):
+        if name is not None and _int_only_updates(name, body):
+            return _Tpl('I')
+        t = _Tpl('I')       # tentatively an integer; falls back to a scalar (see _tpl_output)
+        t.trial = True
+        return t
+    if isinstance(v, SList):
+        return _Tpl('slist', holder={'elem': v.elem, 'pycls': v.pycls})
+    if isinstance(v, list) and name in mutated:
+        holder = {'elem': None, 'pycls': None}
+        if v:
+            kinds = [elem_kind(x, index) for x in v]
+            if any(mtypes.parse_type(k) != mtypes.parse_type(kinds[0]) for k in kinds):
+                raise Unsupported('list accumulator with items of different kinds')
+            holder = {'elem': kinds[0], 'pycls': _class_of_v2(v[0])}
+        return _Tpl('slist', holder=holder)
+    if isinstance(v, (list, tuple)):
+        return _Tpl('seq', sub=[_template(I, x, None, body, mutated) for x in v],
+                    seqtype=type(v))
+    if v is None:
+        # starts as None, may receive a value: `Option τ`, τ found from the assignments
+        return _Tpl('optacc', holder={'kind': None, 'pycls': None})
+    raise Unsupported('loop-carried value of unsupported kind: %r' % (v,))
+
+
+def _tpl_leaves(t):
+    if t.kind == 'seq':
+        out = []
+        for s in t.sub:
+            out.extend(_tpl_leaves(s))
+        return out
+    return [t]
+
+
+def _tpl_kind(t):
+    if t.kind == 'optacc':
+        if t.holder['kind'] is None:
+            raise Unsupported('accumulator that starts as None and never receives a value')
+        return ('opt', t.holder['kind'])
+    if t.kind == 'slist':
+        if t.holder['elem'] is None or \
+                mtypes.parse_type(t.holder['elem']) == ('opt', None):
+            raise Unsupported('list accumulator that never receives an item')
+        return ('list', mtypes.parse_type(t.holder['elem']))
+    return t.kind
+
+
+def _tpl_input(I, t, terms):
+    """Fresh symbolic value of shape t reading the state components `terms` (consumed)."""
+    if t.kind == 'seq':
+        return t.seqtype(_tpl_input(I, s, terms) for s in t.sub)
+    term = terms.pop(0)
+    if t.kind == 'optacc':
+        from symexec import SOpt
+        o = SOpt(term, t.holder['kind'])
+        o.pycls = t.holder['pycls']
+        return o
+    if t.kind == 'slist':
+        L = SList(('lvar', term), t.holder['elem'], t.holder['pycls'])
+        L.holder = t.holder
+        return L
+    return mtypes.make_input(I.index, term, t.kind, t.cls)
+
+
+def _tpl_output(I, t, v, out):
+    """Flatten the value v of shape t into the list of component values `out`."""
+    if t.kind == 'seq':
+        if not isinstance(v, (list, tuple)) or len(v) != len(t.sub):
+            raise Unsupported('fixed-size sequence accumulator changes its length')
+        for s, x in zip(t.sub, v):
+            _tpl_output(I, s, x, out)
+        return
+    if t.kind == 'optacc':
+        from symexec import SOpt
+        if isinstance(v, SymIdx):
+            raise _NeedIndexValue()
+        if v is None or isinstance(v, SOpt):
+            if isinstance(v, SOpt) and v.kind is not None and t.holder['kind'] is not None \
+                    and mtypes.parse_type(v.kind) != mtypes.parse_type(t.holder['kind']):
+                raise Unsupported('optional accumulator of mixed kinds')
+            out.append(v)
+            return
+        kd = mtypes.parse_type(elem_kind(v, I.index))
+        if isinstance(kd, tuple):
+            raise Unsupported('optional accumulator of kind %r' % (kd,))
+        if t.holder['kind'] is None:
+            t.holder['kind'], t.holder['pycls'] = kd, _class_of_v2(v)
+            raise _RestartLoop()
+        if mtypes.parse_type(t.holder['kind']) != kd:
+            raise Unsupported('optional accumulator of mixed kinds')
+        out.append(v)
+        return
+    if t.kind == 'slist':
+        if isinstance(v, list):
+            out.append(v)
+            return
+        if not isinstance(v, SList):
+            raise Unsupported('list accumulator rebound to %r' % (v,))
+        if t.holder['elem'] is None and v.elem is not None:
+            t.holder['elem'], t.holder['pycls'] = v.elem, v.pycls
+        if v.elem is not None and mtypes.parse_type(v.elem) != \
+                mtypes.parse_type(t.holder['elem']):
+            raise Unsupported('list accumulator changes its element kind')
+        out.append(v)
+        return
+    if isinstance(v, SymIdx):
+        raise _NeedIndexValue()
+    if t.kind == 'I' and not (isinstance(v, Si) or (isinstance(v, int) and
+                                                     not isinstance(v, bool))):
+        if getattr(t, 'trial', False):
+            # an integer start value that receives a float: the accumulator is a scalar
+            t.kind, t.trial = 'S', False
+            raise _RestartLoop()
+        raise Unsupported('integer accumulator receives %r' % (v,))
+    if t.kind == 'B' and not isinstance(v, (bool, Bo)):
+        raise Unsupported('boolean accumulator receives %r' % (v,))
+    if isinstance(t.kind, str) and t.kind in mtypes.STRUCTS:
+        if not isinstance(v, Obj):
+            raise Unsupported('object accumulator receives %r' % (v,))
+        t.cls = t.cls or v.cls.name
+    out.append(v)
+
+
+def _snapshot(env):
+    snap = []
+
+    def one(v, depth):
+        if isinstance(v, Obj):
+            snap.append((v, dict(v.slots)))
+            if depth < 2:
+                for x in v.slots.values():
+                    one(x, depth + 1)
+        elif isinstance(v, list):
+            snap.append((v, list(v)))
+        elif isinstance(v, SList):
+            snap.append((v, v.le))
+    for k in sorted(env.keys()):
+        one(env[k], 0)
+    return snap
+
+
+def _restore(snap):
+    for v, old in snap:
+        if isinstance(v, Obj):
+            v.slots.clear()
+            v.slots.update(old)
+        elif isinstance(v, list):
+            v[:] = old
+        else:
+            v.le = old
+
+
+class _MemoInLoop(Exception):
+    """The loop body filled a memo slot (`obj._x` was None) of an object that lives outside
+    the loop."""
+
+    def __init__(self, obj, slot):
+        self.obj, self.slot = obj, slot
+
+
+def _changed(snap, skip):
+    for v, old in snap:
+        if isinstance(v, Obj):
+            for k in sorted(set(v.slots.keys()) | set(old.keys())):
+                if (id(v), k) in skip:
+                    continue
+                if v.slots.get(k, _MISSING) is not old.get(k, _MISSING):
+                    if old.get(k, _MISSING) is None and k.startswith('_'):
+                        raise _MemoInLoop(v, k)
+                    return 'slot %s of a %s object' % (k, v.cls.name)
+        elif id(v) in skip:
+            continue
+        elif isinstance(v, list):
+            if len(v) != len(old) or any(a is not b for a, b in zip(v, old)):
+                return 'a list'
+        else:
+            if v.le is not old:
+                return 'a symbolic list'
+    return None
+
+
+_MISSING = object()
+
+
+def _iter_parts(st_target, it):
+    enum = isinstance(it, tuple)
+    L = it[1] if enum else it
+    if enum:
+        if not (isinstance(st_target, ast.Tuple) and len(st_target.elts) == 2 and
+                isinstance(st_target.elts[0], ast.Name)):
+            raise Unsupported('enumerate target')
+        return L, st_target.elts[0].id, st_target.elts[1]
+    return L, None, st_target
+
+
+def _cur_term(pp_name, depth):
+    return {0: pp_name, 1: pp_name + '.2', 2: pp_name + '.2.2', 'succ': pp_name + '.1',
+            'idx': pp_name + '.1'}[depth]
+
+
+def _idx_value(pp_name, depth, key):
+    if depth == 'idx':
+        return Si(('ivar', '((%s.2 : Nat) : Int)' % pp_name))
+    return SymIdx(key, 0)
+
+
+def _next_depth(depth, nd):
+    if depth == 'idx':
+        raise Unsupported('internal: symbolic index object in index-value mode')
+    if nd.d == 'succ':
+        if depth != 0:
+            raise Unsupported('predecessor and successor in one loop')
+        return 'succ'
+    if depth == 'succ':
+        raise Unsupported('predecessor and successor in one loop')
+    return max(depth + 1, nd.d)
+
+
+def _pairs_src(L, depth):
+    le = L.le
+    el_ty = mtypes.lean_type(L.elem)
+    ty = '(%s)' % el_ty
+    if depth == 'succ':
+        # L = X[:-1]: pairs (X[i], X[i+1])
+        return ('lzip', le, ('ldrop', 1, le[1])), '(%s × %s)' % (ty, ty)
+    if depth == 'idx':
+        return ('lzipidx', le), '(%s × Nat)' % ty
+    for _ in range(depth):
+        le = ('lpairs', le)
+        ty = '(%s × %s)' % (ty, ty)
+    return le, ty
+
+
+def exec_sym_for_v2(frame, st, it):
+    I = frame.I
+    index = I.index
+    L, idx_name, el_target = _iter_parts(st.target, it)
+    if L.elem is None:
+        raise Unsupported('loop over a list whose element kind is not known')
+    if all(isinstance(x, ast.Assert) for x in st.body) and not st.orelse:
+        env = dict(frame.env)
+        fr = Frame(I, frame.func, env)
+        fr.module = frame.module
+        fr.assign(el_target, elem_input(index, 'elem', L))
+        fr.exec_block(st.body)
+        return
+    Lorig = L
+    L = bound_list(I, L)
+    scan = _BodyScan()
+    for s in st.body:
+        scan.visit(s)
+    target_names = set(_target_names(el_target)) | ({idx_name} if idx_name else set())
+    locs = []
+    local_names = []
+    for loc in scan.locs:
+        if loc[0] == 'name':
+            if loc[1] in target_names:
+                continue
+            if loc[1] in frame.env and not isinstance(frame.env[loc[1]], Undefined):
+                locs.append(loc)
+            else:
+                local_names.append(loc[1])
+        else:
+            o = frame.env.get(loc[1])
+            if loc[1] in target_names or o is None:
+                continue        # attribute of a loop-local object
+            if not isinstance(o, Obj):
+                raise Unsupported('attribute store on %r inside a loop' % (o,))
+            locs.append(('attr', loc[1], frame.mangle(loc[2])))
+
+    def current(loc):
+        if loc[0] == 'name':
+            return frame.env[loc[1]]
+        o = frame.env[loc[1]]
+        if loc[2] not in o.slots:
+            raise Unsupported('attribute %s created inside a loop' % loc[2])
+        return o.slots[loc[2]]
+
+    def refs(target):
+        n_ = 0
+        for x in frame.env.values():
+            if x is target:
+                n_ += 1
+            elif isinstance(x, Obj):
+                n_ += sum(1 for y in x.slots.values() if y is target)
+            elif isinstance(x, (list, tuple)):
+                n_ += sum(1 for y in x if y is target)
+        return n_
+    tpls = []
+    for loc in locs:
+        v = current(loc)
+        if isinstance(v, (list, SList)) and refs(v) > 1:
+            raise Unsupported('accumulator container %s is aliased' % (loc[1:],))
+        tpls.append(_template(I, v, loc[1] if loc[0] == 'name' else None, st.body,
+                              scan.mutated))
+    leaves = []
+    for t in tpls:
+        leaves.extend(_tpl_leaves(t))
+    uid = I.fresh('loop')
+    st_name = 'st_' + uid
+    pp_name = 'pp_' + uid
+    key = object()
+    snap = _snapshot(frame.env)
+    skip = set()
+    for loc in locs:
+        if loc[0] == 'name':
+            skip.add(id(frame.env[loc[1]]))
+        else:
+            skip.add((id(frame.env[loc[1]]), loc[2]))
+    init_vals = []
+    for loc, t in zip(locs, tpls):
+        _tpl_output(I, t, current(loc), init_vals)
+    attr_objs = dict((loc, frame.env[loc[1]]) for loc in locs if loc[0] == 'attr')
+
+    def layout(has_err):
+        ctl = []
+        if scan.has_return:
+            ctl.append('ret')
+        if scan.has_break:
+            ctl.append('brk')
+        if has_err:
+            ctl.append('err')
+        return ctl
+
+    def run_body(depth, ctl):
+        ncomp = len(ctl) + len(leaves)
+        terms = [_proj(st_name, k, ncomp) for k in range(ncomp)]
+        acc_terms = terms[len(ctl):]
+        env = dict(frame.env)
+        fr = Frame(I, frame.func, env)
+        fr.module = frame.module
+        _restore(snap)
+        for loc, t in zip(locs, tpls):
+            v = _tpl_input(I, t, acc_terms)
+            if loc[0] == 'name':
+                env[loc[1]] = v
+            else:
+                attr_objs[loc].slots[loc[2]] = v
+        state = {'depth': depth}
+        cur = _cur_term(pp_name, depth)
+        fr.assign(el_target, elem_input(index, cur, L))
+        if idx_name is not None:
+            env[idx_name] = _idx_value(pp_name, depth, key)
+        I.sym_lists[id(key)] = (L, key, pp_name, state, Lorig)
+        # loop-local names must be assigned before they are read in every iteration
+        for nm in local_names:
+            env[nm] = Undefined('loop-local name read before its assignment in the iteration')
+        status, val = 'normal', None
+        try:
+            fr.exec_block(st.body)
+        except _Return as r:
+            status, val = 'return', r.v
+        except _Break:
+            status = 'break'
+        except _Continue:
+            pass
+        except PyRaise as pr:
+            # the exception leaves the loop; the accumulators keep the values they have at
+            # the raise point (a handler around the loop may read them)
+            if 'err' not in ctl:
+                raise _NeedErr()
+            status, val = 'err', pr.exc
+        out = []
+        for loc, t in zip(locs, tpls):
+            v = env[loc[1]] if loc[0] == 'name' else attr_objs[loc].slots[loc[2]]
+            _tpl_output(I, t, v, out)
+        why = _changed(snap, skip)
+        if why is not None:
+            raise Unsupported('loop body over a symbolic list mutates %s that is not a '
+                              'recognised accumulator' % why)
+        return (status, val, out)
+
+    depth = 0
+    has_err = False
+    hoisted = 0
+    while True:
+        ctl = layout(has_err)
+        try:
+            tree = I.explore(lambda: run_body(depth, ctl))
+        except _NeedDepth as nd:
+            depth = _next_depth(depth, nd)
+            continue
+        except _RestartLoop:
+            continue
+        except _NeedIndexValue:
+            if depth == 'idx':
+                raise       # the index of an enclosing loop is meant
+            depth = 'idx'
+            continue
+        except _NeedErr:
+            has_err = True
+            continue
+        except _MemoInLoop as mm:
+            _restore(snap)
+            hoisted += 1
+            _hoist_memo(I, frame, mm, hoisted)
+            snap = _snapshot(frame.env)
+            continue
+        finally:
+            _restore(snap)
+        if _tree_has_err(tree):
+            raise Unsupported('internal: unhandled exception leaf in a loop body')
+        break
+    if not locs and not ctl:
+        raise Unsupported('loop over symbolic list without effect')
+    # kinds of the control components
+    rkind = [None, None]
+    errs = []
+    rconst = []       # distinct concrete values returned from inside the loop
+
+    def scan_leaves(node):
+        if isinstance(node, Leaf):
+            if node.value[0] == 'err':
+                if node.value[1] not in errs:
+                    errs.append(node.value[1])
+            elif node.value[0] == 'return':
+                v = node.value[1]
+                if v is None:
+                    raise Unsupported('`return None` inside a loop over a symbolic list')
+                if isinstance(v, (bool, int)) and not any(
+                        type(c) is type(v) and c == v for c in rconst):
+                    rconst.append(v)
+                elif not isinstance(v, (bool, int)):
+                    rconst.append(_MISSING)
+                kd = mtypes.parse_type(elem_kind(v, index))
+                if rkind[0] is None:
+                    rkind[0], rkind[1] = kd, _class_of_v2(v)
+                elif rkind[0] != kd:
+                    raise Unsupported('loop returns values of different kinds')
+        elif isinstance(node, Let):
+            scan_leaves(node.child)
+        else:
+            scan_leaves(node.then)
+            scan_leaves(node.els)
+    scan_leaves(tree)
+    errs.sort()
+    multi_err = len(errs) > 1     # then the `raised` flag is an Int code (1-based)
+    if 'ret' in ctl and rkind[0] is None:
+        # a `return` that is never reached: drop the component's payload to Bool
+        rkind[0] = 'B'
+    kinds = []
+    for c in ctl:
+        kinds.append(('opt', rkind[0]) if c == 'ret' else
+                     ('I' if (c == 'err' and multi_err) else 'B'))
+    kinds.extend(_tpl_kind(t) for t in leaves)
+    ncomp = len(kinds)
+    ret = ('tup',) + tuple(kinds) if ncomp > 1 else kinds[0]
+
+    def leaf_value(node):
+        status, val, out = node.value
+        head = []
+        for c in ctl:
+            if c == 'ret':
+                head.append(val if status == 'return' else None)
+            elif c == 'brk':
+                head.append(status == 'break')
+            elif multi_err:
+                head.append(errs.index(val) + 1 if status == 'err' else 0)
+            else:
+                head.append(status == 'err')
+        vals = head + list(out)
+        return tuple(vals) if ncomp > 1 else vals[0]
+
+    def conv(node):
+        if isinstance(node, Leaf):
+            return Leaf(leaf_value(node), None)
+        if isinstance(node, Let):
+            return Let(node.name, node.kind, node.expr, conv(node.child))
+        return Branch(node.cond, conv(node.then), conv(node.els))
+    guard = []
+    for k, c in enumerate(ctl):
+        pj = _proj(st_name, k, ncomp)
+        guard.append('(Option.isSome %s = true)' % pj if c == 'ret' else
+                     ('(¬ (%s = (0 : Int)))' % pj if (c == 'err' and multi_err) else
+                      '(%s = true)' % pj))
+    ind = 4 if guard else 3
+    body = emit.emit_tree(conv(tree), ret, index, ind)
+    if guard:
+        body = '      if %s then %s else\n%s' % (' ∨ '.join(guard), st_name, body)
+    src_le, pp_ty = _pairs_src(L, depth)
+    head = [None if c == 'ret' else (0 if (c == 'err' and multi_err) else False)
+            for c in ctl]
+    init_all = head + init_vals
+    init = emit.value_term(tuple(init_all) if ncomp > 1 else init_all[0], ret, index)
+    if depth == 2 and len_lb(I, L.le) < 2:
+        # Python: L[i - 2] raises IndexError on a one-element list (i = 0)
+        _raise_if(I, ('rawprop', '(%s.length = 1)' % list_term(L.le)), 'IndexError')
+    res_name = 'acc_' + uid
+    text = '(List.foldl (fun (%s : %s) (%s : %s) =>\n%s)\n      %s %s)' % (
+        st_name, mtypes.lean_type(ret), pp_name, pp_ty, body, init, list_term(src_le))
+    I.trace.append(('let', res_name, 'raw', text))
+    res_terms = [_proj(res_name, k, ncomp) for k in range(ncomp)]
+    acc_terms = res_terms[len(ctl):]
+    if not ctl:
+        # a list accumulator that receives exactly one item per iteration on every path
+        # has length  len(initial) + len(source)
+        pos = len(ctl)
+        st_terms = [_proj(st_name, k, ncomp) for k in range(ncomp)]
+        for j, t in enumerate(leaves):
+            if t.kind != 'slist':
+                continue
+            okl = [True]
+
+            def chk(node, j=j):
+                if isinstance(node, Leaf):
+                    v = node.value[2][j]
+                    if not (isinstance(v, SList) and v.le[0] == 'lsnoc' and
+                            v.le[1] == ('lvar', st_terms[pos + j])):
+                        okl[0] = False
+                elif isinstance(node, Let):
+                    chk(node.child)
+                else:
+                    chk(node.then)
+                    chk(node.els)
+            chk(tree)
+            if okl[0]:
+                iv = init_vals[j]
+                n0 = len(iv) if isinstance(iv, list) else len_lb(I, iv.le)
+                I.len_lower[res_terms[pos + j]] = n0 + len_lb(I, src_le)
+    for loc, t in zip(locs, tpls):
+        v = _tpl_input(I, t, acc_terms)
+        if isinstance(v, SList):
+            v.holder = None
+        if loc[0] == 'name':
+            frame.env[loc[1]] = v
+        else:
+            attr_objs[loc].slots[loc[2]] = v
+    why = 'loop-local name read after a loop over a symbolic list'
+    for nm in list(local_names) + sorted(target_names):
+        if nm is not None:
+            frame.env[nm] = Undefined(why)
+    for k, c in enumerate(ctl):
+        pj = res_terms[k]
+        if c == 'err' and multi_err:
+            for ei, en in enumerate(errs):
+                _raise_if(I, ('eq', ('ivar', pj), ('ilit', ei + 1)), en)
+        elif c == 'err':
+            _raise_if(I, ('bvar', pj), errs[0] if errs else 'Exception')
+        elif c == 'ret':
+            if I.decide(('rawprop', '(Option.isSome %s = true)' % pj)):
+                if len(rconst) == 1 and rconst[0] is not _MISSING:
+                    # every `return` inside the loop returns the same constant
+                    raise _Return(rconst[0])
+                dflt = _default_term(rkind[0])
+                raise _Return(mtypes.make_input(
+                    index, '(Option.getD %s %s)' % (pj, dflt), rkind[0], rkind[1]))
+    if st.orelse:
+        if 'brk' in ctl:
+            if not I.decide(('bvar', res_terms[ctl.index('brk')])):
+                frame.exec_block(st.orelse)
+        else:
+            frame.exec_block(st.orelse)
+
+
+def _hoist_memo(I, frame, mm, hoisted):
+    """A memoising property of an outer object is first read inside a loop / comprehension:
+    fill it before the loop instead -- only when that evaluation is total (no decision, no
+    exception), so that doing it early is unobservable."""
+    index = I.index
+    prop = mm.slot[1:]
+    _, m = index.find_member(mm.obj.cls, prop)
+    if hoisted > 8 or m is None or getattr(m, 'kind', None) != 'property':
+        raise Unsupported('loop body over a symbolic list mutates slot %s of a %s '
+                          'object that is not a recognised accumulator' % (
+                              mm.slot, mm.obj.cls.name))
+    I.nofork += 1
+    try:
+        I.getattr(mm.obj, prop, frame)
+    except (_NeedFork, PyRaise):
+        raise Unsupported('memo slot %s is first filled inside a loop and its '
+                          'evaluation is not total' % mm.slot)
+    finally:
+        I.nofork -= 1
+    # whether Python fills this slot depends on the loop running at all: the cache
+    # state of the object is not modelled from here on (it must not be returned)
+    mm.obj.cache_unmodelled = True
+
+
+def _tree_has_err(node):
+    if isinstance(node, Leaf):
+        return node.err is not None
+    if isinstance(node, Let):
+        return _tree_has_err(node.child)
+    return _tree_has_err(node.then) or _tree_has_err(node.els)
+
+
+_SKIP = ('skip-item',)
+
+
+def sym_comprehension_v2(frame, e, it):
+    I = frame.I
+    index = I.index
+    if isinstance(e, ast.DictComp):
+        raise Unsupported('dict comprehension over symbolic list')
+    g = e.generators[0]
+    L, idx_name, el_target = _iter_parts(g.target, it)
+    if L.elem is None:
+        raise Unsupported('comprehension over a list whose element kind is not known')
+    Lorig = L
+    L = bound_list(I, L)
+    uid = I.fresh('map')
+    pp_name = 'e_' + uid
+    key = object()
+    snap = _snapshot(frame.env)
+
+    def run(depth):
+        env = dict(frame.env)
+        fr = Frame(I, frame.func, env)
+        fr.module = frame.module
+        state = {'depth': depth}
+        cur = _cur_term(pp_name, depth)
+        fr.assign(el_target, elem_input(index, cur, L))
+        if idx_name is not None:
+            env[idx_name] = _idx_value(pp_name, depth, key)
+        I.sym_lists[id(key)] = (L, key, pp_name, state, Lorig)
+        for cond in g.ifs:
+            if not I.test(fr.eval(cond)):
+                return _SKIP
+        v = fr.eval(e.elt)
+        why = _changed(snap, set())
+        if why is not None:
+            raise Unsupported('comprehension over a symbolic list mutates %s' % why)
+        return v
+
+    depth = 0
+    hoisted = 0
+    while True:
+        try:
+            tree = I.explore(lambda: run(depth))
+            break
+        except _NeedDepth as nd:
+            depth = _next_depth(depth, nd)
+        except _MemoInLoop as mm:
+            _restore(snap)
+            hoisted += 1
+            _hoist_memo(I, frame, mm, hoisted)
+            snap = _snapshot(frame.env)
+        except _NeedIndexValue:
+            if depth == 'idx':
+                raise       # the index of an enclosing loop is meant
+            depth = 'idx'
+    kind = [None, None]
+    has_skip = [False]
+
+    def scan_leaves(node):
+        if isinstance(node, Leaf):
+            if node.err is not None:
+                raise Unsupported('comprehension element raises %s' % node.err)
+            if node.value is _SKIP:
+                has_skip[0] = True
+                return
+            kd = elem_kind(node.value, index)
+            kind[0] = unify_kind(kind[0], kd)
+            if node.value is not None and kind[1] is None:
+                kind[1] = _class_of_v2(node.value)
+        elif isinstance(node, Let):
+            scan_leaves(node.child)
+        else:
+            scan_leaves(node.then)
+            scan_leaves(node.els)
+    scan_leaves(tree)
+    if kind[0] is None:
+        raise Unsupported('comprehension that never yields')
+    if kind[0] == ('opt', None):
+        raise Unsupported('comprehension that only yields None')
+    if depth == 2 and len_lb(I, L.le) < 2:
+        _raise_if(I, ('rawprop', '(%s.length = 1)' % list_term(L.le)), 'IndexError')
+    src_le, pp_ty = _pairs_src(L, depth)
+    binder = '(%s : %s)' % (pp_name, pp_ty)
+    if has_skip[0] and isinstance(kind[0], tuple) and kind[0][0] == 'opt':
+        raise Unsupported('filtered comprehension with optional items')
+    if has_skip[0]:
+        def conv(node):
+            if isinstance(node, Leaf):
+                return Leaf(None if node.value is _SKIP else node.value, None)
+            if isinstance(node, Let):
+                return Let(node.name, node.kind, node.expr, conv(node.child))
+            return Branch(node.cond, conv(node.then), conv(node.els))
+        body = emit.emit_tree(conv(tree), ('opt', kind[0]), index, 3)
+        le = ('lfiltermap', binder, '\n' + body, src_le)
+    else:
+        body = emit.emit_tree(tree, kind[0], index, 3)
+        le = ('lmap', binder, '\n' + body, src_le)
+    nm = 'lst_' + uid
+    I.trace.append(('let', nm, 'raw', list_term(le)))
+    if not has_skip[0]:
+        I.len_lower[nm] = len_lb(I, src_le)
+    return SList(('lvar', nm), kind[0], kind[1])
